@@ -410,10 +410,13 @@ func C07(c *core.Ctx) {
 				for i := 0; i < c.N(60, 400); i++ {
 					p := genPcall(rr, false)
 					if i%2 == 0 {
-						p.kind = "compressed_bytes" // the compressor pool is the most contended object
+						p.kind, p.bad = "compressed_bytes", false // the compressor pool is the most contended object
 					}
 					p.run()
 					// what was returned must be right the moment it is returned, also under contention
+					mu.Lock()
+					p.judgeAtReturn(c, fmt.Sprintf("built while %d goroutines were building and keeping messages", workers))
+					mu.Unlock()
 					if what, ok := p.stillIntact(); !ok {
 						c.Violation("judge-go", "c07-changed:"+p.kind, what+" (checked right after return, under contention)", nil)
 					}
